@@ -404,3 +404,70 @@ func TestVerifC09TickingClock(t *testing.T) {
 		vstats.Case(desc, near, fmt.Sprintf("crossedMidnight:%v", crossed), fmt.Sprintf("nearMidnight:%v", near), fmt.Sprintf("readings:%d", min(len(readings), 6)))
 	})
 }
+
+// TestVerifC09ExistingFile: a counter file of today's name already exists, written earlier the same day under
+// another week-end setting (the setting file was replaced, or two first runs raced for it). A process that opens
+// counters now either does not use that file (its counts stay in memory) or uses a file whose recorded span is
+// the one it computes itself: it never counts into a file whose recorded end differs from the end it rotates by.
+func TestVerifC09ExistingFile(t *testing.T) {
+	defer vstats.Flush()
+	base := t.TempDir()
+	n := 0
+	rapid.Check(t, func(t *rapid.T) {
+		CrashOnBugs = false
+		n++
+		dir := filepath.Join(base, "ex"+strconv.Itoa(n))
+		defer os.RemoveAll(dir)
+		telemetry.Default = telemetry.NewDir(dir)
+		os.MkdirAll(telemetry.Default.LocalDir(), 0777)
+		telemetry.Default.SetModeAsOf("local", time.Date(2020, 1, 1, 0, 0, 0, 0, time.UTC))
+		now, _ := c09Now(t)
+		CounterTime = func() time.Time { return now }
+		defer func() { CounterTime = func() time.Time { return time.Now().UTC() } }()
+		wfile := filepath.Join(telemetry.Default.LocalDir(), "weekends")
+		d1 := rapid.IntRange(0, 6).Draw(t, "firstSetting")
+		d2 := rapid.IntRange(0, 6).Draw(t, "secondSetting")
+		os.WriteFile(wfile, []byte(fmt.Sprintf("%d\n", d1)), 0666)
+		f1 := &file{}
+		f1.rotate1()
+		m1 := f1.current.Load()
+		if m1 == nil {
+			t.Fatalf("first open failed: %v", f1.err)
+		}
+		(&Counter{name: "c", file: f1}).Add(3)
+		path1 := m1.f.Name()
+		_, end1, _ := c09ReadMeta(t, path1)
+		m1.close()
+		// later the same day (possibly the same instant), under the second setting
+		now = now.Add(time.Duration(rapid.IntRange(0, 3600).Draw(t, "laterSeconds")) * time.Second)
+		if c09Days(now) != c09Days(now.Add(-time.Hour)) && rapid.Bool().Draw(t, "stayInDay") {
+			now = c09Midnight(c09Days(now)) // stay at the start of the new day instead
+		}
+		os.WriteFile(wfile, []byte(fmt.Sprintf("%d\n", d2)), 0666)
+		f2 := &file{}
+		expiry := f2.rotate1()
+		c := &Counter{name: "c", file: f2}
+		c.Add(4)
+		desc := fmt.Sprintf("now=%s settings %d then %d", now.Format(time.RFC3339), d1, d2)
+		m2 := f2.current.Load()
+		if m2 == nil {
+			if c.state.load().extra() != 4 {
+				t.Fatalf("%s: the second open failed (%v) but its count is not kept in memory", desc, f2.err)
+			}
+			vstats.Case(desc+" -> second open refused", d1 != d2, "secondOpen:refused")
+			return
+		}
+		defer m2.close()
+		b2, e2, vf := c09ReadMeta(t, m2.f.Name())
+		_, wantEnd := vmodel.Span(c09Days(now), d2)
+		if !b2.Equal(c09Midnight(c09Days(now))) || !e2.Equal(c09Midnight(wantEnd)) {
+			t.Fatalf("%s: the process counts into %s, whose recorded span is %s..%s; under its setting the span is %s..%s (an earlier file of the same day ended %s)", desc, filepath.Base(m2.f.Name()),
+				b2.Format("2006-01-02"), e2.Format("2006-01-02"), vmodel.DateString(c09Days(now)), vmodel.DateString(wantEnd), end1.Format("2006-01-02"))
+		}
+		if !expiry.Equal(e2) {
+			t.Fatalf("%s: the process will rotate at %s but the file it counts into records the end %s", desc, expiry.Format(time.RFC3339), e2.Format(time.RFC3339))
+		}
+		_ = vf
+		vstats.Case(desc+" -> second open used "+filepath.Base(m2.f.Name()), d1 != d2, "secondOpen:mapped", fmt.Sprintf("sameFile:%v", m2.f.Name() == path1))
+	})
+}
